@@ -543,6 +543,13 @@ def unit_provenance(ctx):
         _roundtrip(ctx, f, rep, False, d, ("producer", "nvdim", "representation"), tag="p")
 
 
+def unit_histories(ctx):
+    """all write/read/mutate sequences on a two-path file store (mc/filehist.py): state leaking between calls"""
+    from mc import filehist
+
+    filehist.unit_store_histories(ctx, "ovf", "ovf")
+
+
 def units(tier):
     return [
         {"name": "roundtrip", "fn": unit_roundtrip, "bound": None},
@@ -551,4 +558,5 @@ def units(tier):
         {"name": "faults", "fn": unit_faults, "bound": None},
         {"name": "shortblock", "fn": unit_shortblock, "bound": None},
         {"name": "provenance", "fn": unit_provenance, "bound": None},
+        {"name": "histories", "fn": unit_histories, "bound": None},
     ]
